@@ -510,6 +510,47 @@ pub fn run(ctx: &Ctx) -> EvidenceMeta {
         }
     }
     ctx.enumerate("size-sweep", &sizes, test);
+    // many small attributes: counts around every power of two up to what a 16-bit body can hold
+    // (16 383 empty attributes), with distinct or repeated types, bare or closed by FINGERPRINT /
+    // integrity + FINGERPRINT. Counts, not sizes, are what tables, bitmaps and "hardening" limits key on.
+    let mut counts = vec![];
+    let mut ns: Vec<u32> = vec![];
+    for k in 4..=14u32 {
+        let p = 1u32 << k;
+        ns.extend_from_slice(&[p - 1, p, p + 1]);
+    }
+    ns.extend_from_slice(&[100, 1000, 10_000, 16_380, 16_383]);
+    for n in ns {
+        for (shape, tail) in [(0u8, 0u8), (1, 1), (2, 2), (3, 0)] {
+            // shape 0: empty values, distinct optional types; 1: empty values, one repeated type;
+            // 2: 1..4-byte values, distinct comprehension-required unknown types; 3: empty, type 0x8022
+            let per = if shape == 2 { 8 } else { 4 };
+            let tail_len = [0usize, 8, 32][tail as usize];
+            if n as usize * per + tail_len > 65_532 {
+                continue;
+            }
+            let mut b = refstun::header(0x0001, 0, 0x1234_5678_9abc_def0_1122_3344);
+            for i in 0..n {
+                match shape {
+                    0 => refstun::push_tlv(&mut b, 0xC400 + (i % 0x3000) as u16, &[], 0),
+                    1 => refstun::push_tlv(&mut b, 0xC401, &[], 0),
+                    2 => refstun::push_tlv(&mut b, 0x4000 + (i % 0x3000) as u16, &[i as u8; 4][..1 + (i % 4) as usize], 0),
+                    _ => refstun::push_tlv(&mut b, 0x8022, &[], 0),
+                }
+            }
+            refstun::set_len(&mut b);
+            if tail == 2 {
+                refstun::push_mi(&mut b, b"count-key");
+                refstun::set_len(&mut b);
+            }
+            if tail >= 1 {
+                refstun::push_fp(&mut b);
+                refstun::set_len(&mut b);
+            }
+            counts.push(Case::Bytes(Hex(b)));
+        }
+    }
+    ctx.enumerate("attribute-count-sweep", &counts, test);
     ctx.proptest(
         "grammar",
         ctx.n(120_000, 4_000_000),
